@@ -192,7 +192,11 @@ def main():
         rep.violation(f"gradient-{desc(c)}", f"{desc(c)}: gradient {g[i]} at x={xf[i]}, surrogate tanh' = {want[i]}",
                       {"config": c, "x_bits": env.f2b([xf[i]])[0]})
       continue
-    lst = vlib.zlist(env.f2b(xf))
+    # at a kink the float32 computation of the surrogate can fall on the other side of a rounding /
+    # clipping boundary than the exact model: the model is evaluated at x and at its two float32
+    # neighbours, and the TensorFlow gradient must agree with one of them
+    xn = np.concatenate([xf, np.nextafter(xf, np.float32(-np.inf)), np.nextafter(xf, np.float32(np.inf))])
+    lst = vlib.zlist(env.f2b(xn))
     texts.append(f"Eval vm_compute in flat_map (fun xb => match f32_dec xb with Some x => let g := rnorm (grad x {e}) in "
                  f"[rnum g; rden g] | None => [0; 0] end) {lst}.\n")
     items.append((c, xf, g, y.numpy().reshape(-1)))
@@ -203,15 +207,18 @@ def main():
   some_nonzero = {}
   for s in range(0, len(texts), SH):
     for (c, xf, g, y), flat in zip(items[s:s + SH], outs[f"{PROP}_k_{s // SH:03d}"]):
-      want = [Fraction(flat[2 * i], flat[2 * i + 1]) if flat[2 * i + 1] else None for i in range(len(xf))]
+      n0 = len(xf)
+      allw = [Fraction(flat[2 * i], flat[2 * i + 1]) if flat[2 * i + 1] else None for i in range(3 * n0)]
+      want = allw[:n0]
       for i, (w, gi) in enumerate(zip(want, g)):
         if w is None:
           continue
+        alts = [a for a in (allw[n0 + i], allw[2 * n0 + i]) if a is not None]
         if abs(xf[i]) < 2.0 ** -126 and xf[i] != 0:
           continue  # denormals are zeros to TF
         n_cmp += 1
         got = Fraction(float(gi))
-        if abs(got - w) > Fraction(1, 2 ** 22) * max(1, abs(w)):
+        if all(abs(got - a) > Fraction(1, 2 ** 22) * max(1, abs(a)) for a in [w] + alts):
           rep.violation(f"gradient-{desc(c)}", f"{desc(c)}: tf gradient {float(gi)} at x={xf[i]} but the surrogate's gradient is {float(w)}",
                         {"config": c, "x_bits": env.f2b([xf[i]])[0], "tf_gradient": float(gi), "model_gradient": [w.numerator, w.denominator]})
           break
